@@ -12,6 +12,7 @@ UNITS = [
     {'name': 'rank_small@1_11', 'backend': 'verus', 'tier': 'quick'},
     {'name': 'rank_small@3_13', 'backend': 'verus', 'tier': 'quick'},
     {'name': 'shard_edge', 'backend': 'verus', 'tier': 'quick'},
+    {'name': 'vfunc.get', 'backend': 'verus', 'tier': 'quick'},
     {'name': 'ef.builder', 'backend': 'verus', 'tier': 'quick'},
     {'name': 'ef.guards', 'backend': 'verus', 'tier': 'quick'},
     {'name': 'ef.scan', 'backend': 'verus', 'tier': 'quick'},
@@ -22,6 +23,7 @@ UNITS = [
     {'name': 'k.bfv_unaligned', 'backend': 'kani', 'tier': 'quick', 'props': ['C10', 'C12']},
     {'name': 'k.bfv_apply', 'backend': 'kani', 'tier': 'thorough', 'props': ['C10', 'C14', 'C12']},
     {'name': 'k.atomic', 'backend': 'kani', 'tier': 'quick', 'props': ['C05', 'C14', 'C12']},
+    {'name': 'k.sig_high_bits', 'backend': 'kani', 'tier': 'quick', 'props': ['C16']},
     {'name': 'k.mod2', 'backend': 'kani', 'tier': 'thorough', 'props': ['C12']},
     {'name': 'lenders.rewind', 'backend': 'verus', 'tier': 'quick', 'c12': False},
     {'name': 'bfv.core@u64', 'backend': 'verus', 'tier': 'quick'},
